@@ -33,7 +33,8 @@ ASSUMPTIONS = [
     "star-import lines ('from x import *') are removed by the conversion as documented and are expected to be absent",
     "force-disabled doctests are not converted ('per enabled doctest')",
     "a converted test is executed as the function it is (a doctest's names become function locals); the generated "
-    "programs do not depend on module-level scoping (no global statements, no exec of strings); a test whose doctest "
+    "programs do not depend on module-level scoping (no exec of strings; a doctest with a 'global' statement is counted "
+    "apart: inside the test function the statement names another namespace); a test whose doctest "
     "uses top-level await cannot be executed (finding F16) and is counted apart; a statement that raises on purpose "
     "ends the converted test there, the statements before it are compared",
 ]
@@ -44,7 +45,7 @@ def required_cells(tier):
     return ['functions-match', 'body-lines-equal', 'want-comments-equal', 'star-import-removed',
             'star-import-nested-removed', 'dump-compiles', 'disabled-omitted',
             'two-blocks', 'multi-line-want', 'cli', 'converted-test-runs-the-same-statements',
-            'converted-test-uses-private-module-names', 'kind:mlstr', 'kind:deco', 'kind:await', 'kind:comment', 'kind:mlstr_trailing', 'kind:markercomment']
+            'converted-test-uses-private-module-names', 'kind:mentions_star_import', 'kind:mlstr', 'kind:deco', 'kind:await', 'kind:comment', 'kind:mlstr_trailing', 'kind:markercomment']
 
 
 AWAIT_ERRORS = ("'await' outside async function", "'async with' outside async function",
@@ -66,6 +67,12 @@ def gen_doctest(rng, uid):
         stmts.insert(rng.randrange(len(stmts) + 1),
                      gp.Stmt(['if %d:' % k, '    from os.path import *  # NOQA', '    quiet(%d)' % k], 'starimport_nested', k))
         star = 'nested'
+    if rng.random() < 0.15:
+        # a statement that only mentions a star import, in a string: it is not one and must stay (finding F34)
+        k = 8000 + rng.randrange(1000)
+        stmts.insert(rng.randrange(len(stmts) + 1),
+                     gp.Stmt(["m%d = 'from x import * is discouraged'; quiet(%d)" % (k, k)], 'mentions_star_import', k,
+                             is_expr=True))
     ref = gp.run_reference(stmts)
     if ref.error is not None:
         raise AssertionError('generator produced a failing program %r' % (ref.error,))
@@ -216,7 +223,8 @@ def check_dump_text(ctx, text, expect, modname, src, case, via, mod=None):
             return bad('body', 'function %s does not start with the three-line docstring' % f.name)
         rest = [ln for ln in body[3:] if not ln.startswith('from %s import ' % modname)]
         code, wants = split_body(rest, exp['wants'])
-        exp_code = [ln for st in exp['stmts'] for ln in st.lines if ' import *' not in ln]
+        exp_code = [ln for st in exp['stmts'] for ln in st.lines
+                    if not (' import *' in ln and st.kind in ('starimport', 'starimport_nested'))]
         if norm_code(code) != norm_code(exp_code):
             a, b = norm_code(code), norm_code(exp_code)
             k = next((j for j, (x, y) in enumerate(zip(a, b)) if x != y), min(len(a), len(b)))
@@ -251,6 +259,11 @@ def run_converted(ctx, fns, expect, mod, bad):
                 ctx.cell('converted-test-not-runnable:await (F16)')
                 continue
             return bad('dump-invalid-python', 'function %s does not compile on its own: %r' % (f.name, ex))
+        if any(ln.strip().startswith('global ') for st in exp['stmts'] for ln in st.lines):
+            # a 'global' statement names the doctest's own namespace; inside the test function it names the globals of
+            # the dumped module: the conversion wraps, it does not translate
+            ctx.cell('converted-test-not-comparable:global-statement')
+            continue
         ns = {'__name__': 'dumped_tests'}
         exec(code, ns)
         del mod.T[:]
